@@ -99,6 +99,12 @@ func (g *xGen) c15GenLink() (hOp, bool) {
 	if root == nil {
 		return hOp{}, false
 	}
+	// half of the time: a collection a CHILD store of the family declares, if there is one (store_c15w9.go)
+	if c15HasChildLinks(g.w, root) && g.r.chance(50) { // draws nothing for the wirings without such a collection
+		if op, ok := g.c15GenChildLink(root); ok {
+			return op, true
+		}
+	}
 	alive := g.sortedAlive(root.Name)
 	if len(alive) == 0 {
 		return hOp{}, false
